@@ -484,6 +484,9 @@ def run(tier, seed, replay):
             if not good:
                 disagreements.append({"what": what, "case": c, "impl": want, "model": m})
     shutil.rmtree(base, ignore_errors=True)
+    okt, whatt = common.tie_phase(rep, "C06")
+    if not okt:
+        disagreements.append({"what": "regenerated_tie", "detail": whatt})
     tie_broken = (not cr.ok) or model is None or disagreements
     if tie_broken and found[0] == 0:
         what = []
